@@ -69,6 +69,8 @@ C07_StepsMonotone == Is("Steps") /\ Cur.mono => NonDecreasing(Cur.vals)
 C07_GraphMonotone == Is("Graph") /\ Cur.mono =>
   \A k \in 1..(Len(Cur.evals) - 1) : \A j \in 1..Len(Cur.evals[k].vals) :
      Cur.evals[k].vals[j].v <= Cur.evals[k + 1].vals[j].v
+\* several fans evaluating one monotone graph concurrently while the temperatures rise: the values one fan sees never fall
+C07_ConcurrentMonotone == Is("ConcSweep") => NonDecreasing(Cur.vals) /\ \A i \in 1..Len(Cur.vals) : InRange(Cur.vals[i])
 \* direct algorithm: requested and written PWM are non-decreasing in the curve value
 C07_CtlMonotone == Is("CtlSweep") =>
   /\ NonDecreasing(Cur.reqs) /\ NonDecreasing(Cur.regs)
